@@ -328,7 +328,7 @@ def r5_thread_proc(report, repo):
   t = tries[0]
   in_fin = [c for c in tds if core.in_block(c, t, 'finalbody')]
   report.ok(rule, t, '_execute_test_teardown is called in the finally block')
-  for nm in ('self._execute_node', 'self._execute_test_diagnosers',
+  for nm in ('self._execute_node', 'self._execute_test_diagnoser',
              'self._initialize_plugs', 'self._execute_test_start'):
     cs = core.calls_in(f.node, name=nm)
     report.expect_instances(rule, len(cs), 1, nm + ' calls')
@@ -342,7 +342,7 @@ def r5_thread_proc(report, repo):
   # ordering inside the try body: node execution before diagnosers
   g = lib.cfg(f)
   en = lib.nodes_with_call(g, name='self._execute_node')
-  dg = lib.nodes_with_call(g, name='self._execute_test_diagnosers')
+  dg = lib.nodes_with_call(g, name='self._execute_test_diagnoser')
   ok = all(g.dominated_by(d, lambda n: any(n is e for e, _ in en))
            for d, _ in dg)
   report.check(ok, rule, f.qualname, 'diagnosers-after-nodes', f.node,
@@ -384,10 +384,16 @@ def r8_with_context(report, repo):
       kw = {k.arg: k.value for k in c.keywords}
       for role, want in (('setup', params[0]), ('teardown', params[1])):
         v = kw.get(role)
-        copies = [x for x in ast.walk(v) if isinstance(x, ast.Call) and
+        srcs = [v] if v is not None else []
+        if isinstance(v, ast.Name):
+          # bound to a local of the creator first
+          srcs = [a_.value for a_ in ast.walk(w) if isinstance(a_, ast.Assign)
+                  and any(core.is_name(t_, v.id) for t_ in a_.targets)]
+        copies = [x for src in srcs for x in ast.walk(src)
+                  if isinstance(x, ast.Call) and
                   last_attr(x) in ('attr_copy', 'deepcopy', 'copy') and x.args
                   and isinstance(x.args[0], ast.Name) and
-                  built.get(x.args[0].id) == want] if v is not None else []
+                  built.get(x.args[0].id) == want]
         report.check(bool(copies), rule, f.qualname, 'copy-of-prebuilt:' + role,
                      c, '%s is a copy of the sequence pre-built from %s' %
                      (role, want), 'groups made by the creator do not get '
